@@ -427,6 +427,26 @@ type grantNeed struct {
 	t        string
 }
 
+// withDecoys puts harmless messages of the same signer (a send, or an exec of a send) before and/or after
+// cur in one message list: the order matters to a scan that returns early.
+func withDecoys(r *Rng, cur node, who int) []node {
+	decoy := func() node {
+		if r.Chance(1, 2) {
+			return node{K: "exec", G: who, C: []node{{K: "send", From: who}}}
+		}
+		return node{K: "send", From: who}
+	}
+	switch r.Pick(6, 3, 2, 1) {
+	case 1:
+		return []node{decoy(), cur}
+	case 2:
+		return []node{cur, decoy()}
+	case 3:
+		return []node{decoy(), cur, decoy()}
+	}
+	return []node{cur}
+}
+
 func genTree(r *Rng, signer int, isVal map[int]bool, depth int, needs *[]grantNeed) node {
 	// choose the innermost leaf
 	var leaf node
@@ -450,16 +470,7 @@ func genTree(r *Rng, signer int, isVal map[int]bool, depth int, needs *[]grantNe
 		if inner == idContract && r.Chance(3, 4) {
 			kind = 1
 		}
-		sibs := []node{cur}
-		if r.Chance(1, 5) {
-			// a sibling before or after
-			s := node{K: "send", From: inner}
-			if r.Chance(1, 2) {
-				sibs = []node{s, cur}
-			} else {
-				sibs = []node{cur, s}
-			}
-		}
+		sibs := withDecoys(r, cur, inner)
 		switch kind {
 		case 0:
 			g := inner
@@ -532,7 +543,11 @@ func genCase(r *Rng) caseIn {
 				}
 				t = node{K: "exec", G: signer, C: []node{t}}
 			}
-			tx.Msgs = append(tx.Msgs, t)
+			if signerOf(t) == signer && r.Chance(1, 3) {
+				tx.Msgs = append(tx.Msgs, withDecoys(r, t, signer)...)
+			} else {
+				tx.Msgs = append(tx.Msgs, t)
+			}
 		}
 		// grants needed by this tx are established by earlier single-message txs of the granters
 		for _, g := range needs {
@@ -585,6 +600,14 @@ func openers() []caseIn {
 		// wasm edit
 		{Txs: []txIn{{Dt: 5, Signer: 0, Msgs: []node{wa(cv(idContract, "100000000000000000"))}},
 			{Dt: 90000, Signer: 0, Msgs: []node{wa(node{K: "edit", Op: idContract, Rate: sp("500000000000000000")})}}}},
+		// order inside one message list: harmless messages BEFORE the over-cap one (a scan that returns early misses it)
+		{Txs: []txIn{{Dt: 5, Signer: 1, Msgs: []node{ex(1, node{K: "send", From: 1}), cv(1, r90)}},
+			{Dt: 5, Signer: 1, Msgs: []node{node{K: "send", From: 1}, cv(1, r90)}},
+			{Dt: 5, Signer: 1, Msgs: []node{ex(1, ex(1, node{K: "send", From: 1}), cv(1, r25p))}},
+			{Dt: 5, Signer: 0, Msgs: []node{wa(ex(idContract, node{K: "send", From: idContract}), cv(idContract, r90))}},
+			{Dt: 5, Signer: 1, Msgs: []node{cv(1, "100000000000000000"), ex(1, node{K: "send", From: 1})}},
+			{Dt: 86400, Signer: 1, Msgs: []node{ex(1, node{K: "send", From: 1}), node{K: "edit", Op: 1, Rate: sp(r90)}}},
+			{Dt: 5, Signer: 2, Msgs: []node{cv(2, r25), cv(3, r90)}}}},
 		// extension options: the EVM chain admits MsgEthereumTx only, unknown options are rejected
 		{Txs: []txIn{{Dt: 5, Ext: "evm", Signer: 1, Msgs: []node{cv(1, r90)}}, {Dt: 5, Ext: "evm", Signer: 1, Msgs: []node{ex(1, cv(1, r25))}},
 			{Dt: 5, Ext: "other", Signer: 1, Msgs: []node{cv(1, r25)}}, {Dt: 5, Signer: 1, Msgs: []node{cv(1, r25)}}}},
